@@ -1,2 +1,21 @@
-(* C20 placeholder until Proofs/RingProofs.v exists *)
-From N2kV Require Import Model.RingDefs Spec.RingSpec.
+(* C20 - ring buffers behave as bounded FIFO / priority FIFO queues.  Statements fixed in Spec/RingSpec.v. *)
+From Coq Require Import ZArith List.
+From N2kV Require Import Base.ListAux Model.RingDefs Spec.RingSpec Proofs.RingProofs.
+Import ListNotations.
+Local Open Scope Z_scope.
+
+Theorem C20_ring_refines_fifo : ring_refines_fifo_stmt.  Proof. exact ring_refines_fifo. Qed.
+Print Assumptions C20_ring_refines_fifo.
+Theorem C20_pring_refines : pring_refines_stmt.  Proof. exact pring_refines. Qed.
+Print Assumptions C20_pring_refines.
+Theorem C20_span_head_live : span_head_live_stmt.  Proof. exact span_head_live. Qed.
+Print Assumptions C20_span_head_live.
+Theorem C20_per_priority_fifo : per_priority_fifo_stmt.  Proof. exact per_priority_fifo. Qed.
+Print Assumptions C20_per_priority_fifo.
+
+(* non-vacuity: a concrete history with out-of-order release, refusal at span = size-1 and lowest-priority-first *)
+Example C20_nonvacuous :
+  snd (pring_run (pring_new 4 2) [PAdd 1 10; PAdd 0 20; PAdd 1 30; PAdd 0 40; PReadPri 1; PAdd 0 50; PReadAny; PReadAny; PAdd 0 60; PCount])
+  = [QBool true; QBool true; QBool true; QBool false; QVal (Some 10); QBool true; QValPri (Some (20, 0)); QValPri (Some (50, 0)); QBool true; QNum 3].
+Proof. vm_compute. reflexivity. Qed.
+Print Assumptions C20_nonvacuous.
